@@ -21,6 +21,8 @@ ASSUMPTIONS = [
     "effect of the rounding of the printed terms",
     "SLHA output: every block of the input appears with its data lines unchanged (token-wise), output blocks are added",
     "inputs the library rejects at set-up are discarded here (rejection is C16's subject)",
+    "stale_output: at most one block per output-block name is put into the input (the behaviour for repeated output blocks "
+    "is not documented); GM2CalcOutput[1] of the input is expected to be replaced only when the uncertainty is requested",
 ]
 
 FLAG_KEYS = [1, 2, 3, 4, 5, 6]        # GM2CalcConfig entries: loop order, tanb resummation, force, verbose, uncertainty, running
@@ -315,6 +317,138 @@ def prop(case):
     return None
 
 
+# ------------------------------------------------------------------------------------------------
+# input that already carries output blocks (the program run on the output of a spectrum generator, or on its
+# own earlier output): the entry of the selected format is replaced in place, everything else is echoed
+# ------------------------------------------------------------------------------------------------
+
+STALE_SPELL = {"LOWEN": "LOWEN", "SPHENOLOWENERGY": "SPhenoLowEnergy", "GM2CALCOUTPUT": "GM2CalcOutput"}
+STALE_KEY = {"LOWEN": 6, "SPHENOLOWENERGY": 21, "GM2CALCOUTPUT": 0}
+STALE_OTHER = {"LOWEN": 1, "SPHENOLOWENERGY": 20, "GM2CALCOUTPUT": 7}
+
+
+@st.composite
+def stale_case(draw):
+    content = draw(slha.contents())
+    fmt = draw(st.sampled_from([2, 3, 4]))
+    flags = list(draw(st.sampled_from(ALL_FLAGS)))
+    target = slha.OUTPUT_ENTRY[fmt][0]
+    names = draw(st.lists(st.sampled_from(sorted(STALE_KEY)), min_size=0, max_size=3, unique=True))
+    if target not in names and draw(st.integers(0, 5)) != 0:
+        names.append(target)
+    if not names:
+        names = [target]
+    blocks = []
+    for n in names:
+        ent = [[STALE_KEY[n], draw(st.sampled_from(["1.11111111E-09", "-2.22222222E-10", "0.00000000E+00", "4.2E-9"]))]]
+        if draw(st.booleans()):
+            ent.insert(draw(st.integers(0, 1)), [STALE_OTHER[n], draw(st.sampled_from(["3.14000000E-04", "1.0", "-7.5E+01"]))])
+        if n == "GM2CALCOUTPUT" and draw(st.integers(0, 2)) == 0:
+            ent.append([1, "9.87654321E-10"])
+        blocks.append({"name": n, "entries": ent, "pos": draw(st.integers(0, 30)), "q": draw(st.booleans())})
+    return {"content": content, "fmt": fmt, "flags": flags, "stale": blocks}
+
+
+def stale_text(case):
+    """rendered input with the stale output blocks spliced in between the blocks of the input; -> (text, target not last)"""
+    c = with_config(case["content"], case["fmt"], tuple(case["flags"]))
+    text = slha.render(c)
+    lines = text.split("\n")
+    starts = [i for i, ln in enumerate(lines) if re.match(r"\s*(block|decay)\b", ln, re.I)]
+    chunks = [lines[a:b] for a, b in zip(starts, starts[1:] + [len(lines)])]
+    head = lines[:starts[0]] if starts else lines
+    order = list(range(len(chunks)))
+    items = [("in", ch) for ch in chunks]
+    for sb in sorted(case["stale"], key=lambda b: b["pos"]):
+        txt = ["Block %s%s" % (STALE_SPELL[sb["name"]], " Q= 1.00000000E+03" if sb["q"] else "")]
+        for k, v in sb["entries"]:
+            txt.append("   %d   %s   # stale" % (k, v))
+        items.insert(min(sb["pos"], len(items)), ("stale:" + sb["name"], txt))
+    out = list(head)
+    for _, ch in items:
+        out.extend(l for l in ch if l != "" or True)
+    target = slha.OUTPUT_ENTRY[case["fmt"]][0]
+    kinds = [k for k, _ in items]
+    not_last = ("stale:" + target) in kinds and kinds[-1] != "stale:" + target
+    return "\n".join(out), not_last
+
+
+def prop_stale(case):
+    kind = case["content"]["kind"]
+    fmt, flags = case["fmt"], tuple(case["flags"])
+    text, not_last = stale_text(case)
+    lib = vx.shared().call("slha_calc", kind, vx.hexs(text))
+    if isinstance(lib, (vx.Died, vx.Err)):
+        if isinstance(lib, vx.Err) and lib.cls in ("EReadError", "EInvalidInput"):
+            discard("rejected-at-read")
+            return None
+        return Fail("executor failure", result=repr(lib))
+    if lib.get("stage") in ("setup", "amu"):
+        discard("rejected-at-%s:%s" % (lib.get("stage"), lib.get("exc", "?")))
+        return None
+    status, out, err = cli.run_cli(text, kind)
+    ab = cli.abnormal(status, err)
+    if ab:
+        return Fail("program ended abnormally", fmt=fmt, flags=flags, how=ab)
+    unc = flags[4]
+    target, tkey = slha.OUTPUT_ENTRY[fmt]
+    inb, outb = slha.parse_blocks(text), slha.parse_blocks(out)
+    bad = []
+    if not_last:
+        label("target-block-present-and-not-last")
+    else:
+        trivial()
+
+    def assignments(blocks, name):
+        res = {}
+        for b in blocks:
+            if b["name"] == name:
+                for t in b["lines"]:
+                    if len(t) >= 2:
+                        res[t[0]] = t[1]
+        return res
+
+    # 1. a reader of the output finds the computed value under the entry of the selected format
+    got = assignments(outb, target).get(str(tkey))
+    if got is None:
+        bad.append(("a_mu missing from the output block", target, tkey))
+    elif not close_printed(got, lib["amu"]):
+        bad.append(("entry of the selected format does not carry the computed a_mu", target, got, lib["amu"]))
+    if unc:
+        gu = assignments(outb, "GM2CALCOUTPUT").get("1")
+        if gu is None:
+            bad.append(("uncertainty requested but GM2CalcOutput[1] missing",))
+        elif not close_printed(gu, lib["unc"]):
+            bad.append(("GM2CalcOutput[1] != library uncertainty", gu, lib["unc"]))
+    # 2. nothing else changes: every other assignment of every block of the input is still there, no block is
+    #    duplicated, and no block other than the selected one (GM2CalcOutput for the uncertainty, SPINFO) gains entries
+    written = {(target, str(tkey))}
+    if unc:
+        written.add(("GM2CALCOUTPUT", "1"))
+    names_in = [b["name"] for b in inb]
+    names_out = [b["name"] for b in outb]
+    for n in set(names_in):
+        if names_out.count(n) != names_in.count(n):
+            bad.append(("number of blocks of a name changed", n, names_in.count(n), names_out.count(n)))
+    for n in set(names_out) - set(names_in):
+        if n not in (target, "SPINFO") and not (unc and n == "GM2CALCOUTPUT"):
+            bad.append(("unexpected new block in the output", n))
+    for n in set(names_in):
+        ai, ao = assignments(inb, n), assignments(outb, n)
+        for k, v in ai.items():
+            if (n, k) in written:
+                continue
+            if ao.get(k) != v:
+                bad.append(("entry of an input block not echoed unchanged", n, k, v, ao.get(k)))
+        for k in ao:
+            if k not in ai and (n, k) not in written and n != "SPINFO":
+                bad.append(("input block gained an entry", n, k, ao[k]))
+    if bad:
+        return Fail("SLHA output for an input that already contains output blocks is inconsistent", kind=kind, fmt=fmt,
+                    flags=list(flags), problems=bad[:6], n=len(bad))
+    return None
+
+
 def known_match(entry, case, fail):
     return False
 
@@ -324,4 +458,10 @@ def subchecks(ctx):
                 nontrivial=lambda c: True,
                 classes=lambda c: ["kind:" + c["content"]["kind"], "loop:%d" % c["flags"][0], "unc:%d" % c["flags"][4]],
                 known_match=known_match,
-                rule="input x flag combination, executed in all five output formats and through the library")]
+                rule="input x flag combination, executed in all five output formats and through the library"),
+            Sub("stale_output", stale_case(), prop_stale, {"quick": 60, "thorough": 1500},
+                nontrivial=lambda c: True,
+                classes=lambda c: ["kind:" + c["content"]["kind"], "fmt:%d" % c["fmt"], "stale-blocks:%d" % len(c["stale"])],
+                rule="input that already contains LOWEN / SPhenoLowEnergy / GM2CalcOutput blocks with stale values at random "
+                     "positions, SLHA output formats: the selected entry carries the computed a_mu, everything else is echoed; "
+                     "non-trivial = the block of the selected format is present and not the last block of the input")]
